@@ -11,6 +11,7 @@ import (
 	"flag"
 	"fmt"
 	"os"
+	"reflect"
 	"regexp"
 	"runtime"
 	"runtime/debug"
@@ -728,4 +729,25 @@ func (k *Keeper) Keep(c *Ctx, name string, r *gen.Rand, still func() string) {
 	}
 	k.ring[k.n%len(k.ring)] = still
 	k.n++
+}
+
+// Printed calls everything that renders x as text - the fmt verbs and every
+// exported method of the concrete type that takes no argument and returns one
+// string (String, Format, GoString, ...) - and returns the texts. Rendering an
+// object is a read: callers compare the object and the buffers it was made
+// from before and after.
+func Printed(x interface{}) []string {
+	out := []string{fmt.Sprintf("%v", x), fmt.Sprintf("%+v", x)}
+	v := reflect.ValueOf(x)
+	if !v.IsValid() {
+		return out
+	}
+	t := v.Type()
+	for i := 0; i < t.NumMethod(); i++ {
+		m := t.Method(i)
+		if m.Type.NumIn() == 1 && m.Type.NumOut() == 1 && m.Type.Out(0).Kind() == reflect.String {
+			out = append(out, v.Method(i).Call(nil)[0].String())
+		}
+	}
+	return out
 }
